@@ -27,16 +27,21 @@ Definition fn_eval (f : fn) (x : Z) : Z := match f with FnAffine a b => a * x + 
 Definition rel_eval (r : rel) (x y : Z) : bool :=
   match r with RelEq => x =? y | RelDiv d => Z.div x d =? Z.div y d end.
 
-(* a stream callback may fail: the k-th invocation (0-based, counted per callback instance)
-   returns error code e instead of a result.  Iterators ignore the failure part. *)
-Record failing := mkFailing { fail_at : option nat; fail_err : Z }.
-Definition never_fails : failing := mkFailing None 0.
+(* a callback may fail: the k-th invocation (0-based, counted per callback instance) does not
+   return a result.  fail_panic = false: it returns error code fail_err (streams only - an
+   iterator callback cannot return an error, iterators ignore such a record altogether);
+   fail_panic = true: it panics (streams and iterators; fail_err is not used).  Every other
+   invocation succeeds. *)
+Record failing := mkFailing { fail_at : option nat; fail_err : Z; fail_panic : bool }.
+Definition never_fails : failing := mkFailing None 0 false.
 
 (* sources.  Every source carries an id; the harness instruments it (pull counter, Next/Close log). *)
 Inductive sevent :=
 | EvItem (x : Z)
 | EvTransient (e : Z)      (* Next returns error e once; the following Next proceeds *)
-| EvFatal (e : Z).         (* Next returns error e now and on every later call *)
+| EvFatal (e : Z)          (* Next returns error e now and on every later call *)
+| EvPanic.                 (* Next panics once; the following Next proceeds with the rest of the
+                              script *)
 
 Inductive source :=
 | SSlice (l : list Z)                (* iterator.Slice / stream.FromIterator(iterator.Slice) *)
@@ -81,7 +86,8 @@ Inductive reducer :=
 | RCollect
 | RLast (n : Z)
 | ROne
-| RSum                     (* Reduce with + from 0 *)
+| RSum (fl : failing)      (* Reduce with + from 0; the k-th invocation of the reduction function
+                              fails as [fl] says (error: streams only; panic: both) *)
 | REqualSelf               (* Equal(p, p') on two independent copies of the pipeline *)
 | REqual (others : list pz). (* iterator.Equal(p, others...) on independent pipelines (iterators only) *)
 
